@@ -78,10 +78,13 @@ class RuleChecker:
         violations: list[Violation] = []
 
         with suppress(KeyError):
-            dir_violations = self._check_directory_rules(
-                path_str, rel_path, fp_config["directories"]
-            )
+            directories = fp_config["directories"]
+            dir_violations = self._check_directory_rules(path_str, rel_path, directories)
             violations.extend(dir_violations)
+            dir_rule, _ = self.directory_matcher.find_matching_rule(path_str, directories)
+            if dir_rule:
+                # Directory overrides global: a covered file is judged by its directory rule only
+                return violations
 
         with suppress(KeyError):
             deny_violations = self._check_global_deny(path_str, rel_path, fp_config["global_deny"])
